@@ -1070,7 +1070,6 @@ func (m *model) submit(recs []*opRec, waitingRoute, hi bool, what string) *hist.
 			admittedAll = m.oc.AddOperator(ops...)
 		}
 	})
-	m.hand = nil
 	if v := m.observe(pre, what); v != nil {
 		return v
 	}
@@ -1179,16 +1178,39 @@ func (m *model) doExec(ridx int) *hist.Violation {
 			}
 			src := sim.Meta()
 			if err := sim.ApplyCommand(msg); err != nil {
-				return bad("command-refused", "%s: the store refuses %s although it carries the current epoch and leader: %v (region %s)", what, cmdStr(msg), err, sim)
+				if v := m.refused(ridx, msg, err, what); v != nil {
+					return v
+				}
+				continue
 			}
 			t.AbsorbMerge(src)
 			continue
 		}
 		if err := sim.ApplyCommand(msg); err != nil {
-			return bad("command-refused", "%s: the store refuses %s although it carries the current epoch and leader: %v (region %s)", what, cmdStr(msg), err, sim)
+			if v := m.refused(ridx, msg, err, what); v != nil {
+				return v
+			}
 		}
 	}
 	return m.observe(pre, what)
+}
+
+// refused: the store refuses a command that carries the current epoch and leader.
+// That is expected when the precondition of the operator's current step does
+// not hold in the store's state (the next heartbeat must then cancel the
+// operator, which the heartbeat oracle checks); otherwise PD sent a command
+// that cannot be executed although the reference says it can.
+func (m *model) refused(ridx int, msg *pdpb.RegionHeartbeatResponse, err error, what string) *hist.Violation {
+	sim := m.sims[ridx]
+	if g := m.oc.GetOperator(regionIDs[ridx]); g != nil {
+		if rc := m.recOf(g); rc != nil && rc.refCur < len(rc.steps) {
+			want := regionsim.CommandFor(rc.steps[rc.refCur], sim.Info())
+			if want != nil && sameCommand(want, msg) && refPrecond(rc.steps[rc.refCur], sim) {
+				return bad("command-refused", "%s: the store refuses %s although it carries the current epoch and leader and the step's precondition holds: %v (region %s; %s)", what, cmdStr(msg), err, sim, m.describe(rc))
+			}
+		}
+	}
+	return nil
 }
 
 func (m *model) doAdd(k int) *hist.Violation {
@@ -1223,6 +1245,7 @@ func (m *model) Apply(i int) *hist.Violation {
 		for _, h := range m.hand {
 			recs = append(recs, m.recs[h])
 		}
+		m.hand = nil
 		return m.submit(recs, o.kind == oAddWaitHand, o.hi, m.OpName(i))
 	case oRemove:
 		pre := m.snap()
@@ -1521,10 +1544,10 @@ func main() {
 	hist.Main(&hist.Config{
 		Property: "C09",
 		Scopes: []*hist.Scope{
-			mk(scopeAPI, "quick", 5, ""),
-			mk(scopeMerge, "quick", 4, ""),
-			mk(runsJ, "quick", 4, ""),
-			mk(runsP, "quick", 4, ""),
+			mk(scopeAPI, "quick", 6, ""),
+			mk(scopeMerge, "quick", 5, ""),
+			mk(runsJ, "quick", 5, ""),
+			mk(runsP, "quick", 5, ""),
 			mk(scopeAPI, "thorough", 7, "@7"),
 			mk(scopeMerge, "thorough", 6, "@6"),
 			mk(runsJ, "thorough", 6, "@6"),
